@@ -1,11 +1,11 @@
 # C06 / C04: MetaStoreUpdate::replace_failed_proxy (src/broker/update.rs), verified modularly:
 # takeover_master is visible only through the contract proved in unit `takeover` (same text, taken from its overlay);
-# generate_new_free_proxy and get_proxy_by_address by assumed contracts (out of reach).
+# generate_new_free_proxy through the contract proved in unit new_free_proxy (text imported); get_proxy_by_address by an assumed contract.
 # Text = real function + rules R1, R-clone + overlay contracts/replace_failed_proxy.overlay.json.
 import re
 import vlib
 from vlib import Undecided
-from units import broker_common, takeover
+from units import broker_common, takeover, new_free_proxy, free_proxy
 
 
 def set_epoch(U):
@@ -31,9 +31,11 @@ def build(U):
     spec = open(vlib.VERIF + '/verus/replace_proxy_spec.rs').read()
     spec = spec.replace('//@@SET_EPOCH@@', set_epoch(U).text)
     spec = spec.replace('//@@UPDATE_STRUCT@@', takeover.UPDATE_STRUCT)
+    spec = spec.replace('//@@NEW_FREE_CONTRACT@@', new_free_proxy.NEW_FREE_HEADER)
+    spec = spec.replace('//@@FREE_SPEC@@', free_proxy.ALLOCATABLE_SPEC + new_free_proxy.INDEX_INV_SPEC)
     spec = spec.replace('//@@TAKEOVER_CONTRACT@@', "    // verified in unit `takeover`; here only its contract is visible\n    #[verifier::external_body]\n" + T['contract'] + "    { unimplemented!() }\n")
     U.add(types + T['specs'] + spec)
     U.add_fn(function(U))
     U.add("}\n} // verus!\nfn main() {}\n")
-    U.trust('generate_new_free_proxy by assumed contract (returns a registered ProxyResource); get_proxy_by_address by assumed contract (Some iff registered)',
+    U.trust('generate_new_free_proxy through its contract proved in unit new_free_proxy; get_proxy_by_address by assumed contract (Some iff registered); index invariant of the store as precondition',
             'derived Clone of ProxyResource / Option<ClusterName> is structural')
